@@ -257,6 +257,8 @@ def menu(fmt):
     add("I20.succ", "incoming.successors=all-three", lambda s: find(s, "intersections", 20)["incomings"][0].update(right=[3], straight=[2], left=[2, 3]))
     add("loc", "location=None", lambda s: s.__setitem__("location", None))
     add("loc.geo", "location.geo=None", lambda s: s["location"].__setitem__("geo", None))
+    add("loc.geo", "location.geo=identity-transformation", lambda s: s["location"].__setitem__("geo", {"ref": "+proj=utm +zone=32", "x": 0.0, "y": 0.0, "rot": 0.0, "scale": 1.0}))
+    add("loc.geo", "location.geo=reference-only(defaults)", lambda s: s["location"].__setitem__("geo", {"ref": "+proj=utm +zone=32"}))
     add("loc.env", "location.env=None", lambda s: s["location"].__setitem__("env", None))
     add("sid", "scenario_id=map-only", lambda s: s.__setitem__("sid", {"country": "ZAM", "map": "Tjunction", "map_id": 3}))
     add("sid", "scenario_id=coop-multi", lambda s: s.__setitem__("sid", {"coop": True, "country": "DEU", "map": "A9", "map_id": 33, "conf": 2, "beh": "S", "pred": [1, 3]}))
@@ -422,6 +424,8 @@ def menu(fmt):
 def conflicts(a, b):
     """slots that cannot be combined meaningfully"""
     pre = lambda x: x.split(".")[0] + "." + (x.split(".")[1] if "." in x else "")
+    if {a, b} == {"O31.shape", "O31.pred.shape"}:
+        return True       # the XML format stores ONE shape per dynamic obstacle: a prediction shape of another kind than the obstacle's is not expressible
     if "alias" in (a, b):
         o = b if a == "alias" else a
         return o.startswith("O3") or o.startswith("PP.goal") or o == "alias"       # the shared-instance specs are not plain shape lists
